@@ -150,6 +150,28 @@ Definition check_stalled : P (list Z) :=
   let j2 := negb hung && prefixb ids (expected (firstn stall inp)) && (e =? eCtx) && (leaked =? 0) in
   ret (code_if j2 2)%list.
 
+(* tag 5: a run of foreign fileblocks; if the reader got into the run, another goroutine cancelled:
+   what was delivered is a prefix of the elements, Err is the file's error (the reader stopped at
+   the first foreign block) or the context's error, at most one block read started after the
+   cancel, nothing hung, nothing left *)
+Definition check_foreign_run : P (list Z) :=
+  n <- pnat ;; resume <- pbool ;; its <- plist (ppair pint pint) ;;
+  ids <- plist pint ;; e <- pint ;; hung <- pbool ;; rac <- pint ;; leaked <- pint ;;
+  let inp := mk_input 0 0 its in
+  let j2 := negb hung && prefixb ids (expected inp)
+            && ((e =? eCtx) || (list_eqb Z.eqb ids (expected inp) && (e =? final_err inp)))
+            && (rac <=? 1) && (leaked =? 0) in
+  ret (code_if j2 2)%list.
+
+(* tag 6: Close (or cancel then Close, or Header then Close) on a slow reader: delivered prefix;
+   when Close has returned no Read is in progress, none begins later, no goroutine is left *)
+Definition check_slow_close : P (list Z) :=
+  n <- pnat ;; resume <- pbool ;; its <- plist (ppair pint pint) ;;
+  stop <- pint ;; ids <- plist pint ;; inread <- pint ;; later <- pint ;; leaked <- pint ;;
+  let inp := mk_input 0 0 its in
+  let j2 := prefixb ids (expected inp) && (inread =? 0) && (later =? 0) && (leaked =? 0) in
+  ret (code_if j2 2)%list.
+
 Definition check_pbf : P (list Z) :=
   n <- pnat ;; resume <- pbool ;; hdrerr <- pint ;; its <- plist (ppair pint pint) ;;
   mode <- pint ;; filter <- pint ;; calls <- plist ptriple ;;
@@ -203,7 +225,8 @@ Definition check_case (t : toks) : list Z :=
   match t with
   | tag :: rest =>
       let p := if tag =? 2 then check_pbf else if tag =? 4 then check_xml
-               else if tag =? 6 then check_xml_cancel else if tag =? 8 then check_stalled else pfail in
+               else if tag =? 6 then check_xml_cancel else if tag =? 8 then check_stalled
+               else if tag =? 10 then check_foreign_run else if tag =? 12 then check_slow_close else pfail in
       match parse_all p rest with Some codes => codes | None => [0] end
   | [] => [0]
   end.
